@@ -266,4 +266,22 @@ theorem reachable_done {U T C : Nat} {s : Sys} (h : Reachable U T C s) : s.lpc =
   | create => intro hc; cases hc
   | step _ hs ih => exact step_done _ _ _ ih hs
 
+/-- **EOF is delivered.** Once all `T` chunks have been returned and the unpacker of the lane the next `Read` looks at
+    has exited, every call of `esl_dsqdata_Read` returns EOF at once (the caller is recorded in `eofs`, nothing else
+    changes but the bookkeeping) - for every consumer, any number of times. -/
+theorem read_eof_at_end (s : Sys) (h : Inv s) (h2 : Inv2 s) (hn : s.nchunk = s.T)
+    (hd : (s.lane (s.nchunk % s.U)).upc = .done) (hr : s.reader = none) (c : Nat) :
+    step s (.read c) = some { s with reader := none, eofs := c :: s.eofs } := by
+  have hu : s.nchunk % s.U < s.U := Nat.mod_lt _ h.upos
+  have hoe := h2.doneOut _ hu hd
+  have hob : (s.lane (s.nchunk % s.U)).outbox = none := by
+    cases ho : (s.lane (s.nchunk % s.U)).outbox with
+    | none => rfl
+    | some ck =>
+      have hm : ck.2 ∈ (s.lane (s.nchunk % s.U)).ks := by simp [Lane.ks, Lane.outK, ho]
+      have := h.range _ hu _ hm
+      have := h.bounds
+      omega
+  simp only [step, hr, Option.isSome_none, Bool.false_eq_true, ↓reduceIte, readBody, hoe, hob, Bool.not_true, Bool.false_and]
+
 end EaselModel.Pipeline
